@@ -59,9 +59,17 @@ func c10Offenders() []c10Offender {
 		{Name: "link-into-default-ignored-git-sorted-after", Nodes: []gen.NodeSpec{f(".git/config"), l("gitcfg", ".git/config")}, Bad: true},
 		{Name: "link-to-reincluded-file", Nodes: []gen.NodeSpec{f("ign/keep.txt"), f("ign/drop.txt"), l("zkeep", "ign/keep.txt")}, Rules: "ign/\n!ign/keep.txt\n"},
 		{Name: "ignored-files-and-git", Nodes: []gen.NodeSpec{f(".git/HEAD"), f(".terraform/x"), f(".terraform/modules/m/main.tf"), f("logs/a.log"), f("keep/a.log")}, Rules: "/logs/\n"},
+		{Name: "offender-after-ignored-sibling", Nodes: []gen.NodeSpec{f("mod/a.log"), l("mod/creds", "../../outside-file"), f("mod/z.log")}, Rules: "*.log\n", Bad: true},
+		{Name: "special-after-ignored-sibling", Nodes: []gen.NodeSpec{f("mod/a.log"), {Path: "mod/pipe", Kind: "fifo", Mode: 0644}}, Rules: "*.log\n", Bad: true},
+		{Name: "ignored-files-after-ignored-sibling", Nodes: []gen.NodeSpec{f("mod/a.log"), f("mod/b.log"), f("mod/keep.txt"), f("mod/sub/c.log"), f("x.log")}, Rules: "*.log\n"},
+		{Name: "ignored-link-then-offender", Nodes: []gen.NodeSpec{l("mod/a.lnk", "main.tf"), l("mod/b-esc", "../../sibling-data")}, Rules: "*.lnk\n", Bad: true},
 		{Name: "rule-file-with-negations", Nodes: []gen.NodeSpec{f("build/out.bin"), f("build/keep/me.txt"), f("src/x.tmp")}, Rules: "build/\n!build/keep/\n*.tmp\n"},
 	}
 }
+
+// c10Alias makes the remote dependency and the registry target carry identical
+// content (two addresses, one directory), so that the coalescing path runs.
+var c10Alias = false
 
 func c10World(off c10Offender, position int, extraOff *c10Offender) gen.World {
 	w := gen.World{Finders: 1}
@@ -78,8 +86,19 @@ func c10World(off c10Offender, position int, extraOff *c10Offender) gen.World {
 			w.Remotes[pi].Files[".terraformignore"] += o.Rules
 		}
 	}
+	if c10Alias {
+		files := map[string]string{}
+		for k, v := range w.Remotes[1].Files {
+			files[k] = v
+		}
+		w.Remotes[2].Files = files
+		w.Remotes[2].Content = w.Remotes[1].Content
+	}
 	place(position, off)
-	if extraOff != nil {
+	if c10Alias && position > 0 {
+		place(3-position, off) // keep the two aliases identical
+	}
+	if extraOff != nil && !c10Alias {
 		place((position+1)%3, *extraOff)
 	}
 	return w
@@ -289,7 +308,19 @@ func init() {
 		Name: "exhaustive-single-offender-x-position", Chroot: true, Exhaustive: true,
 		N: func(string) int { return len(offs) * 3 },
 		Run: func(env *fw.Env, idx int) fw.Result {
+			c10Alias = false
 			return c10Run(env, offs[idx/3], idx%3, nil)
+		},
+	}
+	aliased := &fw.Phase{
+		Name: "exhaustive-single-offender-x-position-with-identical-packages", Chroot: true, Exhaustive: true,
+		N: func(string) int { return len(offs) * 3 },
+		Run: func(env *fw.Env, idx int) fw.Result {
+			c10Alias = true
+			defer func() { c10Alias = false }()
+			r := c10Run(env, offs[idx/3], idx%3, nil)
+			r.Hash ^= 0x5a5a
+			return r
 		},
 	}
 	pairs := &fw.Phase{
@@ -303,9 +334,9 @@ func init() {
 	fw.Register(&fw.Property{
 		ID:    "C10",
 		Level: "exploration",
-		Rule: "a three-package world (added package -> remote dependency, -> registry target) is built inside a chroot arena; one of 25 shapes is planted in one package (exhaustive x 3 positions) or two shapes in two packages (all ordered pairs): clean relative links and chains, links to a sibling / out of the bundle / absolute / to the manifest / dangling / looping / through the directory's own name, fifos, sockets, links to fifos, offenders hidden by ignore rules, links into ignored directories sorted before and after the directory, re-included files, rule files with negations. " +
+		Rule: "a three-package world (added package -> remote dependency, -> registry target) is built inside a chroot arena; one of 29 shapes is planted in one package (exhaustive x 3 positions) or two shapes in two packages (all ordered pairs): clean relative links and chains, links to a sibling / out of the bundle / absolute / to the manifest / dangling / looping / through the directory's own name, fifos, sockets, links to fifos, offenders hidden by ignore rules, links into ignored directories sorted before and after the directory, re-included files, rule files with negations. " +
 			"Independent expectation: the tree is materialised by the harness, reference-excluded paths are removed, remaining links are resolved physically; an offender left => the build must fail, otherwise it must succeed and every package directory of the bundle must contain only files, directories and links resolving to an existing file/directory inside it, no reference-excluded file, no .tmp-* directory; snapshot diff around the target directory. non-trivial = every case; distinct = shapes x position",
 		Assumptions: []string{"a link into an ignored (and therefore removed) directory is a dangling link of the finished package", "links to in-package directories are not part of the universe (hashing them fails today; either outcome would be acceptable)"},
-		Phases:      []*fw.Phase{single, pairs},
+		Phases:      []*fw.Phase{single, aliased, pairs},
 	})
 }
